@@ -222,11 +222,40 @@ class Installed:
         R.recursion_cache = recursion_cache
         R.is_recursive = is_recursive
         self.caches = caches
+        # systematic yields at lazy initialisations: the closure of every RecMethod created while
+        # installed lets the other threads run before and after the (long) compilation it performs
+        self.rec_patches = []
+        if getattr(ctl, "yield_lazy", False):
+            import time
+
+            import apischema.deserialization.methods as DM
+            import apischema.serialization.methods as SM
+
+            for mod in (DM, SM):
+                cls = mod.RecMethod
+                orig_post = cls.__post_init__
+
+                def post(self_, _orig=orig_post):
+                    _orig(self_)
+                    inner_lazy = self_.lazy
+
+                    def yielding_lazy():
+                        time.sleep(0.0005)
+                        res = inner_lazy()
+                        time.sleep(0.0005)
+                        return res
+
+                    self_.lazy = yielding_lazy
+
+                cls.__post_init__ = post
+                self.rec_patches.append((cls, orig_post))
         return self
 
     def __exit__(self, *exc):
         import apischema.cache
 
+        for cls, orig_post in self.rec_patches:
+            cls.__post_init__ = orig_post
         for k, v in self.saved.items():
             setattr(self.R, k, v)
         if self.cached_fn in apischema.cache._cached:
